@@ -133,6 +133,13 @@ static void one_op(void) {
     /* the value of another pool member: for non-minimal defining polynomials these are the OTHER roots of a's polynomial */
     int exactz = 0;
     if (chance(35) && lp_algebraic_number_is_rational(b)) { lp_algebraic_number_to_rational(b, &q); exactz = lp_algebraic_number_is_integer(b); }
+    /* an integer root of a's own (non-minimal) defining polynomial: f(z) = 0 says nothing about a == z */
+    if (!exactz && a->f && chance(30)) {
+      long cand[13]; int nc = 0; lp_integer_t z; lp_integer_construct(&z);
+      for (long t = -6; t <= 6; ++t) { lp_integer_assign_int(lp_Z, &z, t); if (lp_upolynomial_sgn_at_integer(a->f, &z) == 0) cand[nc++] = t; }
+      if (nc) { lp_rational_destruct(&q); lp_rational_construct_from_int(&q, cand[rnd(nc)], 1); exactz = 1; }
+      lp_integer_destruct(&z);
+    }
     if (exactz) k = chance(60) ? 0 : 2;
     if (k == 0) {
       lp_integer_t z; lp_integer_construct(&z); lp_rational_floor(&q, &z); if (!exactz && chance(50)) lp_integer_inc(lp_Z, &z);
